@@ -28,6 +28,7 @@ type ObligInstance struct {
 	Model   string         `json:"model,omitempty"`
 	Where   string         `json:"where,omitempty"`
 	Goal    string         `json:"goal,omitempty"`
+	Trace   []string       `json:"path_events,omitempty"`
 }
 
 type Oblig struct {
@@ -162,6 +163,12 @@ func (x *Exec) prove1(st *State, name, kind, clause string, goal Term, where, ex
 	if r == "unsat" {
 		inst.Result, inst.Solver = "discharged", "z3-5.1.0(incremental)"
 		return
+	}
+	for _, ev := range st.events {
+		if ev.Callee == "(*stage.Stage).logDebug" || strings.HasPrefix(ev.Callee, "log.") || strings.HasPrefix(ev.Callee, "fmt.") {
+			continue
+		}
+		inst.Trace = append(inst.Trace, ev.Kind+" "+ev.Callee)
 	}
 	x.nfile++
 	file := filepath.Join(x.outDir, "smt", sanitize(x.fname), fmt.Sprintf("%03d_%s.smt2", x.nfile, sanitize(name)))
@@ -780,6 +787,7 @@ func (x *Exec) step(st *State, fr *Frame, instr ssa.Instruction) {
 		x.assume(app(sBool, ">", r, tZero))
 		x.bind(fr, i, scalar(r, i.Type()))
 	case *ssa.MapUpdate:
+		x.callSite(st, fr, "mapupdate", "map:"+dynName(i.Map), []Val{x.val(st, fr, i.Map), x.val(st, fr, i.Key), x.val(st, fr, i.Value)}, nil, "before", i)
 		x.mapUpdate(st, fr, i)
 	case *ssa.Range:
 		x.bind(fr, i, Val{K: KScalar, T: x.val(st, fr, i.X).T, Typ: i.X.Type()})
